@@ -190,6 +190,13 @@ func (propC02) Gen(r *Rng, run uint64, tier string) *Plan {
 		p.Query = c02Query(ms, "metric_range", rng, off, suffix) + " + " + c02Query(msB, "metric_range", rng, offB, "")
 	}
 	p.Tags["offset_b"] = fmt.Sprint(offB)
+	if kind == "metric_binop" && len(p.World.Containers) > 0 && r.Bool(0.3) {
+		// Between the two selections a container is stopped and renamed: the second
+		// selection must go by what the daemon reports then.
+		c := p.World.Containers[r.Intn(len(p.World.Containers))]
+		p.Faults = []Fault{{Kind: FaultInventoryChange, Container: c.ID, Open: -1, K: 1}}
+		p.Tags["changed"] = c.ID
+	}
 	switch kind {
 	case "log_range":
 	case "log_instant":
@@ -301,9 +308,18 @@ func (propC02) Check(t *testing.T, p *Plan, st *Stats) *Violation {
 		wantCount[id]++
 	}
 	nSel := 1
+	worldB := &p.World
+	if id := p.Tags["changed"]; id != "" && len(p.Faults) > 0 && len(o.Lists) >= 2 {
+		// (an implementation that lists once per query legitimately keeps the first view)
+		w2 := p.World.Clone()
+		if c := w2.Find(id); c != nil {
+			c.State, c.Status, c.Names = ChangedState, ChangedStatus, []string{"/" + ChangedName(id)}
+		}
+		worldB = &w2
+	}
 	if kind == "metric_binop" {
 		nSel = 2
-		for _, id := range RefSelect(&p.World, msB) {
+		for _, id := range RefSelect(worldB, msB) {
 			if wantCount[id] == 0 {
 				want = append(want, id)
 			}
@@ -320,6 +336,7 @@ func (propC02) Check(t *testing.T, p *Plan, st *Stats) *Violation {
 			st.Signature(fmt.Sprintf("%s|%s|sel=%d/%d", kind, ops, len(want), len(p.World.Containers)))
 		}
 		st.ProbeIf(p.Tags["suffix"] != "", "selector_followed_by_pipeline")
+		st.ProbeIf(p.Tags["changed"] != "" && len(o.Lists) >= 2, "inventory_changed_between_selections")
 		st.ProbeIf(len(want) == 0, "selects_none")
 		st.ProbeIf(len(want) == len(p.World.Containers) && len(want) > 0, "selects_all")
 		st.ProbeIf(len(want) > 0 && len(want) < len(p.World.Containers), "selects_proper_subset")
@@ -408,7 +425,7 @@ func (propC02) Check(t *testing.T, p *Plan, st *Stats) *Violation {
 		inA[id] = true
 	}
 	if kind == "metric_binop" {
-		for _, id := range RefSelect(&p.World, msB) {
+		for _, id := range RefSelect(worldB, msB) {
 			inB[id] = true
 		}
 	}
